@@ -349,6 +349,14 @@ func (r *runner) afterStep(st rep.Step) {
 		r.mismatch("projection: "+strings.Join(bad, "; "), nil)
 		return
 	}
+	// the budget invariants first: a broken invariant is a verdict about the code,
+	// a difference to the spec alone is not
+	for _, f := range r.A.checkC29(r.tr, r.top().realPaid) {
+		r.violation(f.key, fmt.Sprintf("after step %d (%s): %s", r.upto, st.Act(), f.what), nil)
+	}
+	if r.failed {
+		return
+	}
 	fg, fe := flat{}, flat{}
 	flatten("s", got, fg)
 	flatten("s", specState(exp), fe)
@@ -363,12 +371,6 @@ func (r *runner) afterStep(st rep.Step) {
 		} else {
 			r.mismatch(what, map[string]interface{}{"diff(real,spec)": entries})
 		}
-		return
-	}
-	for _, f := range r.A.checkC29(r.tr, r.top().realPaid) {
-		r.violation(f.key, fmt.Sprintf("after step %d (%s): %s", r.upto, st.Act(), f.what), nil)
-	}
-	if r.failed {
 		return
 	}
 	if vd, _ := st["vd"].(map[string]interface{}); vd != nil {
